@@ -12,6 +12,8 @@ namespace AIToolbox::Bandit {
         const auto & counts = policy_.getExperience().getVisitsTable();
 
         if (counts[bestAction] < 2) return bestAction;
+        // With a single arm there is no challenger to look for.
+        if (counts.size() < 2) return bestAction;
 
         std::bernoulli_distribution pickBest(beta_);
         if (pickBest(rand_))
